@@ -12,7 +12,7 @@ CLAIMED = {
         text="TLC exhaustively checks the PlusCal transcription of uniq_sort_cpal_colors against the declarative palette "
              "predicate for every set of <=6 colours over 3 RGBA ranks x indices {none,0..5} (82,160 inputs), plus termination "
              "under fairness; every exported terminal state is replayed into the real function (B1) and the PaletteUse model's "
-             "scenarios are compiled to real COLRv0/COLRv1 fonts and read back from the binary.",
+             "scenarios are compiled to real COLRv0/COLRv1 fonts and read back from the binary.  currentColor may carry a palette index (var(--colorN, currentColor)) in the model's colour universe; in COLRv0 the palette byte must be the nearest of the 256 alpha steps.",
         note="Trusted: TLC, fontTools CPAL/COLR decompilation, RGBA ranks as order-preserving abstraction of tuples. "
              "Exhaustive only within the stated universe; larger palettes are not explored.",
         technique="TLA+/PlusCal model checked by TLC + spec-to-code replay of every terminal state",
@@ -37,7 +37,7 @@ CLAIMED = {
              "It is instantiated on the ninja graphs the real driver writes for every world of a small family (B3, extracted at check time, "
              "read sets measured with strace) and TLC enumerates all histories within the bounds for FreshOK/AllFresh/FailStop, all schedules of "
              "one invocation, and liveness under fairness.  Sampled model histories are replayed on the real CLI: exit status, executed-edge set "
-             "(validates the ninja model) and sha256(font) against a clean build.  Families: clip/metrics toggle, colour-format toggle, thorough: bitmap options.",
+             "(validates the ninja model) and sha256(font) against a clean build.  Families: clip/metrics toggle, colour-format toggle, thorough: bitmap options.  Replayed histories are chosen so that every operation hits a build directory that already holds a finished build, and content edits alternate between colour-only changes (part files and glyph map unchanged) and added shapes.",
         note="Trusted: TLC, ninja, strace; content-term abstraction (a step's output is a function of the files it reads).  The mtime limitation "
              "(content changes without a newer mtime) is reproduced every run and reported as a known finding, not a violation.",
         technique="TLA+ model of driver+ninja+faults on graphs extracted from the code, model-checked by TLC; model histories replayed on the real CLI",
@@ -59,7 +59,7 @@ CLAIMED = {
              "cut into <=2 glyphs; sampled scenarios are concretised, compiled by the real pipeline (glyf/cff/cff2 COLRv1, 8 metric/transform/"
              "quantisation variants), reloaded and compared layer by layer by an independent layer oracle (COLR spec reading vs SVG spec reading, "
              "tolerances from ground truth); random continuous scenarios and the repository's sample SVGs go through the same oracle; recorded "
-             "reuse-cache executions are validated against CompileTrace.tla.",
+             "reuse-cache executions are validated against CompileTrace.tla.  PaintedLayers.tla (the SVG-tree to Paint-tree walk, statement by statement: NoAssert, TreeSame) is model-checked over every document of <=8 (thorough 9) nodes and each document replayed into the real function and through whole builds; the ClipList box is applied to the expected layers.",
         note="Trusted: TLC; fontTools; picosvg's path parsing and its normalize/affine_between (assumed as stated in Compile.tla); the layer oracle "
              "(agrees with the real compiler on 44 repository SVGs, detects seeded placement / opacity / gradient mutants).  No COLRv1 renderer "
              "exists in the sandbox: 'paints' means the COLR semantics as read by the oracle.",
@@ -94,7 +94,7 @@ CLAIMED = {
         text="ClipBox.tla (union, otRound, outward quantisation over exact rationals on both sides of every rounding/quantisation boundary) is "
              "model-checked for Contains, Multiples, Tight, NoBoxIffNoLayers and every terminal state replayed into the real quantiser; real COLRv1 "
              "fonts (Compile.tla scenarios and random scenarios x steps {default,1,7,50} x metrics x user transforms, content outside the viewBox) are "
-             "read back: ClipList against bounds recomputed independently from the compiled outlines through the paint graph and against the source shapes.",
+             "read back: ClipList against bounds recomputed independently from the compiled outlines through the paint graph and against the source shapes.  QuantizeProof.tla: TLAPS proof (re-checked by tlapm in every run) that the quantisation step is outward, lands on multiples and wastes less than one step for every integer edge and every step.",
         note="Trusted: TLC; fontTools; the oracle's outline flattening (under-estimates a curved edge by < 0.1 unit).",
         technique="TLA+ transcription of the clip-box computation checked by TLC, replayed state by state; independent recomputation on real fonts",
         design_ref="DESIGN.md §4.2, §5 C05",
@@ -168,7 +168,7 @@ CLAIMED = {
         text="Config.tla RoundTrip/Precedence over FontConfig._fields (B3) x provenance; every field vector (boundary floats, optional/strings, multi-"
              "axis/master) is written by config.write and reloaded; glyphmap CSV rows over hostile file names, response-file expansion, codepoints<->"
              "file names, glyph-name injectivity/legality (GlyphSet.tla Distinct) and parts JSON round trips are replayed against the real functions "
-             "and through a real build directory (<output>.toml / .glyphmap).",
+             "and through a real build directory (<output>.toml / .glyphmap).  The driver is re-run on a used build directory with other flags and the worker's Font.toml compared field by field; hostile characters are also tried as the first character of a CSV field.",
         note="Trusted: TLC; feaLib's lexer as the judge of legal glyph names.  A 64/65-character naming defect was repaired with a fix: commit; the g_-prefix "
              "collision is a recorded known finding.",
         technique="TLA+ model of the driver->file->worker channel checked by TLC; vectors replayed through the real writer/loader pairs",
@@ -179,7 +179,7 @@ CLAIMED = {
              "name-keyed structures untouched) is model-checked for MeaningKept and CoverageSorted over all permutations of <=5 glyphs x pairing "
              "shapes; template fonts containing every GSUB/GPOS lookup type and format (incl. contextual/chaining 1-3, reverse chaining, GDEF "
              "attach/caret/mark-sets) are permuted by the real reorder_glyphs (model permutations + random), saved, reloaded; a name-keyed meaning "
-             "extraction and the raw coverage arrays are compared.",
+             "extraction and the raw coverage arrays are compared.  Reorder.tla covers sequences of calls on one font object (negative configurations: a rule that forgets its parallel array, a sort permutation remembered from the first call); the template has lookups with equal content.",
         note="Trusted: TLC; fontTools otTables decompilation; the template font builder (feaLib + hand-built contextual formats).",
         technique="TLA+ model of coverage reordering checked by TLC; model permutations replayed on real fonts with name-keyed meaning extraction",
         design_ref="DESIGN.md §5 C11",
@@ -190,7 +190,7 @@ CLAIMED = {
              "run on nanoemoji-built COLRv0/COLRv1/picosvg/untouchedsvg fonts and third-party-style COLR fonts (arbitrary paint graphs, no space "
              "glyph, kerning/mark lookups, several palettes) x {--bitmaps, --colr_version, --keep_glyph_names}; input and output are compared table "
              "by table (name-keyed, incl. the meaning of GSUB/GPOS/GDEF with mark anchors on reordered colour glyphs) and each colour table's layers per "
-             "glyph by the layer oracle; Build.tla (FreeSchedule, DeclaredCoversRead) is instantiated on the ninja graph maximum_color itself writes.",
+             "glyph by the layer oracle; Build.tla (FreeSchedule, DeclaredCoversRead) is instantiated on the ninja graph maximum_color itself writes.  Multi-palette inputs are compared once more with palette 1 selected on both sides.",
         note="Trusted: TLC; fontTools; the layer oracle and OT-SVG oracle.  Bitmap strikes are checked for presence/placement, not pixels.",
         technique="TLA+ model of the maximum_color pipeline checked by TLC; differential replay of real runs with table-wise and picture-wise comparison",
         design_ref="DESIGN.md §5 C12",
@@ -200,7 +200,7 @@ CLAIMED = {
              "SamePlacement over every well-formed paint tree of depth <=3 (thorough: 4) on two transform tokens; every tree is concretised by a "
              "third-party font builder with concrete PaintTransform/Translate/Scale*/Rotate*/Skew* paints, gradients (rotated p2, r0>0, c0!=c1), "
              "composite glyphs, colour-glyph references, opacity groups; the real colr_to_svg output is rendered by the OT-SVG oracle and compared "
-             "with the COLR oracle's reading in the requested viewBox; currentColor / var(--colorN) and unsupported-format errors are checked.",
+             "with the COLR oracle's reading in the requested viewBox; currentColor / var(--colorN) and unsupported-format errors are checked.  SolidFill.tla (which attributes a solid paint leaves, under any selected palette: FollowsPalette, with a negative configuration) is model-checked and replayed into svg._apply_solid_paint; multi-palette fonts are compared with palette 1 selected on both sides.",
         note="Trusted: TLC; the two oracles (written from the specs, mutually independent of nanoemoji).",
         technique="TLA+ stack-machine model of the converter checked by TLC; every model tree replayed on the real converter and judged by independent oracles",
         design_ref="DESIGN.md §5 C13",
@@ -222,7 +222,7 @@ CLAIMED = {
              "ClipContainsOnAxis / EscapeOnlyIfBilinear, termination.  Exported scenarios are rebuilt by the real CLI (variable font + each "
              "master alone), evaluated by an independent variable-font evaluator at every master location and at quarter steps along every axis, "
              "and compared with the static builds, the model's numbers (49/49 agree within 1 unit) and the clip box; random 2-3 master sets "
-             "(curves, gradients, opacity, 1-2 axes, metrics) go through the same comparison.",
+             "(curves, gradients, opacity, 1-2 axes, metrics) go through the same comparison.  Layouts include axis defaults of zero; master sets whose glyphs' clip boxes coincide in one master and differ in another.",
         note="Trusted: TLC; fontTools decompilation and iup_delta; the evaluator (OpenType variation semantics; agrees with the model on every "
              "built scenario).  TLC found that a variable scale over a variable outline leaves the interpolated clip box between masters: "
              "reproduced on the real CLI every run and reported as a known finding.  Off-axis masters (corner masters) are outside the model.",
